@@ -449,6 +449,10 @@ pub struct ExploreCfg<'a> {
     pub branch: &'a dyn Fn(&Choice) -> bool,
     /// hard cap on executions (reported as a cap, never as exhaustive)
     pub max_executions: u64,
+    /// branch only on the first `window` decisions of an execution (None = all): on inputs with tens of thousands of
+    /// records this explores every way of preempting the workers while they handle the first records, each followed
+    /// by the default continuation (the running worker goes on until it blocks or exits)
+    pub window: Option<usize>,
 }
 
 /// Exploration by re-execution with iterative preemption bounding: all schedules with 0 preemptions first (depth
@@ -508,7 +512,7 @@ pub fn explore<F: FnMut(&[u8], bool) -> (ExecResult, bool)>(cfg: &ExploreCfg, mu
             }
             for i in prefix.len()..res.trace.len() {
                 let c = &res.trace[i];
-                if (cfg.branch)(c) && c.enabled.len() > 1 {
+                if (cfg.branch)(c) && c.enabled.len() > 1 && cfg.window.map_or(true, |w| i < w) {
                     if counted {
                         stats.branching_points += 1;
                     }
